@@ -216,6 +216,58 @@ impl Tree {
 	}
 }
 
+impl Tree {
+	/// Every stored version of `user_key`, by place, newest place first:
+	/// `(place, seq, kind, first value bytes)` with place = "active", "imm#<table id>", "L<level>#<table id>".
+	pub fn verif_dump_key(&self, user_key: &[u8]) -> Result<Vec<(String, u64, u8, Vec<u8>)>> {
+		use crate::LSMIterator;
+		let mut out = Vec::new();
+		let mut upper = user_key.to_vec();
+		upper.push(0);
+		let mut scan_mem = |place: String, m: &Arc<crate::memtable::MemTable>| -> Result<()> {
+			let mut it = m.range(Some(user_key), Some(&upper));
+			let mut ok = it.seek_first()?;
+			while ok {
+				let k = it.key();
+				if k.user_key() == user_key {
+					out.push((place.clone(), k.seq_num(), k.kind() as u8, it.value_encoded()?.iter().take(16).cloned().collect()));
+				}
+				ok = it.next()?;
+			}
+			Ok(())
+		};
+		{
+			let active = self.core.inner.active_memtable.read()?;
+			scan_mem("active".to_string(), &active)?;
+		}
+		{
+			let imm = self.core.inner.immutable_memtables.read()?;
+			for e in imm.iter().rev() {
+				scan_mem(format!("imm#{}", e.table_id), &e.memtable)?;
+			}
+		}
+		let m = self.core.inner.level_manifest.read()?;
+		let range = crate::user_range_to_internal_range(
+			std::ops::Bound::Included(user_key),
+			std::ops::Bound::Included(user_key),
+		);
+		for (li, level) in m.levels.get_levels().iter().enumerate() {
+			for t in &level.tables {
+				let mut it = t.iter(Some(range.clone()))?;
+				let mut ok = it.seek_first()?;
+				while ok {
+					let k = it.key();
+					if k.user_key() == user_key {
+						out.push((format!("L{}#{}", li, t.id), k.seq_num(), k.kind() as u8, it.value_encoded()?.iter().take(16).cloned().collect()));
+					}
+					ok = it.next()?;
+				}
+			}
+		}
+		Ok(out)
+	}
+}
+
 impl Transaction {
 	/// The visibility horizon this transaction captured at begin.
 	pub fn verif_start_seq(&self) -> u64 {
